@@ -407,3 +407,11 @@ Qed.
 Lemma index_tokens_datetime v :
   index_tokens v datetime_precision_step = index_tokens v numeric_precision_step.
 Proof. reflexivity. Qed.
+
+(* every byte after the header of any term is a 7-bit digit: the candidate strings with a byte
+   >= 0x80 that termRange.Enumerate walks through are never terms of a numeric field *)
+Lemma prefix_coded_7bit v s p : prefix_coded v s = Some p -> Forall (fun d => 0 <= d < 128) (tl p).
+Proof.
+  unfold prefix_coded. destruct (63 <? s); [discriminate|]. intros H. injection H as <-.
+  cbn [tl]. apply digits7_digits.
+Qed.
